@@ -41,6 +41,8 @@ type Trace struct {
 	Ties      int
 	Exact     int
 	MultiEv   int // blocks delivering >1 event
+	EmptyBlk  int // blocks delivering no event (Atropos already delivered: same root elected for two frames)
+	JumpRoots int // processed events whose frame is >= 2 above their self-parent's
 	CheatBlk  int // blocks with a non-empty expected cheater list
 	HiddenFork int // blocks where forks exist in the epoch so far but the expected list is empty
 	RootOrderFP uint64
@@ -72,14 +74,21 @@ type RunOpts struct {
 	Kinds      func(epochIdx int) OrderKind
 	Inst       InstCfg
 	WithRef    bool
-	ProbeRoots bool // additionally ask the store's root registry whether each Atropos is a root (touches its cache)
+	WarmReset  bool // the instance first lives through an unrelated warm-up epoch (other validators, forks, blocks) and is then Reset() to the DAG's first epoch
+	OnEvent    func(t *Trace, e *Ev, newBlocks []*Block) // called after every accepted event
+	ProbeRoots bool                                      // additionally ask the store's root registry whether each Atropos is a root (touches its cache)
 }
 
 func Run(d *DAG, r *rand.Rand, o RunOpts) *Trace {
 	kinds, icfg, withRef := o.Kinds, o.Inst, o.WithRef
 	cfg := d.Cfg
 	policy := cfg.Policy()
-	in := NewInst(cfg.Plans[0].Epoch, cfg.Plans[0].Validators(), policy, icfg)
+	var in *Inst
+	if o.WarmReset {
+		in = warmedUp(r, cfg, policy, icfg)
+	} else {
+		in = NewInst(cfg.Plans[0].Epoch, cfg.Plans[0].Validators(), policy, icfg)
+	}
 	t := &Trace{Inst: in}
 	var fpParts []interface{}
 	for ei, ed := range d.Epochs {
@@ -118,6 +127,13 @@ func Run(d *DAG, r *rand.Rand, o RunOpts) *Trace {
 					t.add(DFrameNotMax, "event", e.Name, "built_frame", e.Frame(), "ref_max_frame", max, "ref_allowed", allowed)
 				}
 			}
+			if sp := e.SelfParent(); sp != nil {
+				if spe := in.In.GetEvent(*sp); spe != nil && e.Frame() >= spe.Frame()+2 {
+					t.JumpRoots++
+				}
+			} else if e.Frame() >= 2 {
+				t.JumpRoots++
+			}
 			nb := len(in.Blocks)
 			err := in.Process(e)
 			t.Processed++
@@ -130,6 +146,9 @@ func Run(d *DAG, r *rand.Rand, o RunOpts) *Trace {
 				return t.finish()
 			}
 			got := in.Blocks[nb:]
+			if o.OnEvent != nil {
+				o.OnEvent(t, e, got)
+			}
 			// C02 invariants that need no reference
 			for _, b := range got {
 				if b.Dup {
@@ -143,6 +162,9 @@ func Run(d *DAG, r *rand.Rand, o RunOpts) *Trace {
 				}
 				if len(b.Events) > 1 {
 					t.MultiEv++
+				}
+				if len(b.Events) == 0 {
+					t.EmptyBlk++
 				}
 			}
 			if !withRef {
@@ -265,4 +287,30 @@ func BlocksEqual(a, b []*Block) (bool, string) {
 		}
 	}
 	return true, ""
+}
+
+// warmedUp returns an instance that has processed a small unrelated epoch (4 validators, forks, a few
+// blocks) at epoch 1000 and was then Reset() to the first epoch of cfg.
+func warmedUp(r *rand.Rand, cfg *GenCfg, policy SealPolicy, icfg InstCfg) *Inst {
+	plans := RandomPlans(r, 1, -4, false, CheatBelowThird)
+	plans[0].Epoch = 1000
+	for k := range plans[0].Lag {
+		plans[0].Lag[k] = 0
+	}
+	wcfg := &GenCfg{Plans: plans, EventsPer: 60, MinParents: 1, MaxParents: 4, ForkProb: 0.2}
+	wd, _, err := Generate(r, wcfg)
+	if err != nil {
+		panic(fmt.Errorf("warm-up generation: %v", err))
+	}
+	in := NewInst(1000, plans[0].Validators(), policy, icfg)
+	for _, e := range wd.Epochs[0].Events {
+		if err := in.Process(e); err != nil {
+			panic(fmt.Errorf("warm-up event rejected: %v", err))
+		}
+	}
+	in.Blocks = nil
+	if err := in.Reset(cfg.Plans[0].Epoch, cfg.Plans[0].Validators()); err != nil {
+		panic(fmt.Errorf("Reset failed: %v", err))
+	}
+	return in
 }
